@@ -149,17 +149,31 @@ def generate(tier):
                  ('Ord', 'rank = 1', 'rank = "1"'), ('Ord', 'method(a)', 'method(b)'), ('Ord', 'ignore = true', 'ignore'), ('Clone', 'method(a)', 'method(b)'),
                  ('Default', 'expression = 1', 'expression = 2'), ('Default', 'expression = 1', 'expr = 1'), ('Default', 'expr(1)', 'expression(2)'),
                  ('Into', 'method(a)', 'method(b)')]
+    # every ordered pair of spellings of a flag (the second mention must be refused whatever the first one's value was), and every listed pair in both orders
+    flag_sp = ['ignore', 'ignore = true', 'ignore(true)', 'ignore = false', 'ignore(false)']
+    have = set(dup_field)
+    for t in ('Debug', 'PartialEq', 'Hash', 'PartialOrd', 'Ord', 'PartialOrd@both', 'Eq'):
+        for a, b in itertools.product(flag_sp, repeat=2):
+            if (t, a, b) not in have:
+                have.add((t, a, b))
+                dup_field.append((t, a, b))
+    for t, a, b in list(dup_field):
+        if (t, b, a) not in have:
+            have.add((t, b, a))
+            dup_field.append((t, b, a))
     for sk, sh in shapes[:3]:
         for t, a, b in dup_field:
             for pos in (sh.positions()[0], sh.positions()[-1]):
-                others = {'Ord': ['PartialEq', 'Eq', 'PartialOrd'], 'PartialOrd': ['PartialEq']}.get(t, [])
+                others = {'Ord': ['PartialEq', 'Eq', 'PartialOrd'], 'PartialOrd': ['PartialEq'], 'PartialOrd@both': ['PartialEq', 'Eq', 'Ord'], 'Eq': ['PartialEq']}.get(t, [])
+                tag = t
+                t = t.split('@')[0]
                 v = {pos[0]: ['Default']} if (t == 'Default' and sh.kind == 'enum') else None
                 dm = ['Default'] if v else []
                 if t == 'Into':
                     mk = lambda ps: {p: (['Into(u8, %s)' % ps] if p == pos else ['Into(u8)']) for p in [pos] + [(vi, 0) for vi, (s, n) in enumerate(sh.variants) if vi != pos[0]]}
                     bad('param-twice', '%s|Into-field|%s|%s,%s' % (sk, pos, a, b), req(sh, ['Into'], f=mk('%s, %s' % (a, b)), drop_markers=['Into']), req(sh, ['Into'], f=mk(a), drop_markers=['Into']))
                     continue
-                bad('param-twice', '%s|%s-field|%s|%s,%s' % (sk, t, pos, a, b), req(sh, [t] + others, f={pos: ['%s(%s, %s)' % (t, a, b)]}, v=v, drop_markers=dm),
+                bad('param-twice', '%s|%s-field|%s|%s,%s' % (sk, tag, pos, a, b), req(sh, [t] + others, f={pos: ['%s(%s, %s)' % (t, a, b)]}, v=v, drop_markers=dm),
                     req(sh, [t] + others, f={pos: ['%s(%s)' % (t, a)]}, v=v, drop_markers=dm))
     # named field: name twice
     for pos in ((0, 0), (0, 2)):
@@ -438,6 +452,14 @@ def generate(tier):
             bad('debug-nameless', 'enum|empty-variant%d|%s' % (vi, off), K.render(sh, K.Config('', ['Debug'], {vi: [off]})), K.render(sh, K.Config('', ['Debug'])))
         bad('debug-nameless', 'enum|all-ignored|%s' % off, K.render(sh, K.Config('', ['Debug'], {2: [off]}, {(2, 0): ['Debug(ignore)'], (2, 1): ['Debug = false']})),
             K.render(sh, K.Config('', ['Debug'], {2: [off]}, {(2, 0): ['Debug(ignore)']})))
+        # the nameless empty variant after variants that do print fields (state kept from one variant must not excuse the next)
+        for shk, sh, empties in (('t2,t0,n0', X('enum', [('t', 2), ('t', 0), ('n', 0)]), (1, 2)), ('n2,n0', X('enum', [('n', 2), ('n', 0)]), (1,)),
+                                 ('n1,u,t0,t1', X('enum', [('n', 1), ('u', 0), ('t', 0), ('t', 1)]), (2,)), ('t1,n0,t1', X('enum', [('t', 1), ('n', 0), ('t', 1)]), (1,))):
+            for vi in empties:
+                bad('debug-nameless', 'enum|%s|empty-variant%d-after-fields|%s' % (shk, vi, off), K.render(sh, K.Config('', ['Debug'], {vi: [off]})), K.render(sh, K.Config('', ['Debug'])))
+        for shk, sh, vi in (('t1,n2', X('enum', [('t', 1), ('n', 2)]), 1), ('n2,t2', X('enum', [('n', 2), ('t', 2)]), 1), ('n1,t1,t2', X('enum', [('n', 1), ('t', 1), ('t', 2)]), 2)):
+            bad('debug-nameless', 'enum|%s|all-ignored-after-fields|%s' % (shk, off), K.render(sh, K.Config('', ['Debug'], {vi: [off]}, {(vi, 0): ['Debug(ignore)'], (vi, 1): ['Debug = false']})),
+                K.render(sh, K.Config('', ['Debug'], {vi: [off]}, {(vi, 0): ['Debug(ignore)']})))
         bad('debug-nameless', 'empty-enum|%s' % off, K.render(X('enum', []), K.Config('', [off])), K.render(X('enum', []), K.Config('', ['Debug(name = true)'])))
     bad('debug-nameless', 'empty-enum|default', K.render(X('enum', []), K.Config('', ['Debug'])), K.render(X('enum', []), K.Config('', ['Debug = E'])))
     return R
